@@ -103,20 +103,13 @@ func formatNumberUnitShort[T NumberType](amount T, unit *UnitDefinition, display
 }
 
 func formatNumberUnitLong[T NumberType](amount T, unit Unit, displayZero bool) string {
-	var formatString string
-	switch any(amount).(type) {
-	case int64:
-		formatString = "%d"
-	case float64:
-		formatString = "%f"
-	}
 	switch {
 	case amount == 1 || amount == -1:
-		return fmt.Sprintf(formatString, amount) + unit.NameLongSingular()
+		return formatNumber(amount) + unit.NameLongSingular()
 	case amount != 0:
-		return fmt.Sprintf(formatString, amount) + unit.NameLongPlural()
+		return formatNumber(amount) + unit.NameLongPlural()
 	case displayZero:
-		return fmt.Sprintf(formatString, amount) + unit.NameLongPlural()
+		return formatNumber(amount) + unit.NameLongPlural()
 	default:
 		return ""
 	}
